@@ -324,7 +324,8 @@ def list_spec(draw, depth, sat, opts):
                                  "contains", "ellipsis"]))
     s = {"t": "list", "form": form}
     sub = spec_strategy(depth - 1, sat, **opts)
-    long_eq = draw(st.integers(0, 11)) == 0       # an exact length beyond CPython's cache of small int objects
+    # an exact length beyond CPython's cache of small int objects (lists of scalars only: cost)
+    long_eq = depth <= 1 and draw(st.integers(0, 9)) == 0
     if form == "untyped":
         if long_eq:
             s["len"] = ["eq", draw(st.sampled_from([257, 300]))]
